@@ -26,13 +26,17 @@ TYPES = {'int': int, 'float': float, 'Fraction': F, 'np.float64': np.float64, 'n
 KEYVALS = {'a': (1, -1), 'b': (-1, 2), 'c': (3, -2)}
 
 
-def letters():
+KEY_FAMILIES = {'abc': ('a', 'b', 'c'), 'mixed': ('a', 0, ('x', 1))}   # str / int / tuple keys are not mutually orderable
+
+
+def letters(family='abc'):
     out = []
+    names = KEY_FAMILIES[family]
     for combo in itertools.product((None, 0, 1), repeat=3):
         d = {}
-        for key, c in zip('abc', combo):
+        for key, name, c in zip('abc', names, combo):
             if c is not None:
-                d[key] = KEYVALS[key][c]
+                d[name] = KEYVALS[key][c]
         out.append(d)
     return out
 
@@ -52,7 +56,7 @@ def check(tr, ref, tname, n_updates, where):
     got = tr.get()
     want = ref.get()
     if set(got.keys()) != set(want.keys()):
-        bad('keys', f"keys {sorted(got)} but keys seen so far are {sorted(want)} (keys are never dropped)")
+        bad('keys', f"keys {list(got)} but keys seen so far are {list(want)} (keys are never dropped)")
     if tr.N != n_updates:
         bad('N', f"N={tr.N} after {n_updates} updates")
     tol = 0 if exact else 16 * eps * 4 * max(1, n_updates)
@@ -63,7 +67,7 @@ def check(tr, ref, tname, n_updates, where):
                          f"(0 when omitted) is {w} ({float(w)!r}); histories {ref.hist}")
     norm = tr.get_normalized()
     if set(norm.keys()) != set(want.keys()):
-        bad('norm-keys', f"normalised keys {sorted(norm)}")
+        bad('norm-keys', f"normalised keys {list(norm)}")
     for k, v in norm.items():
         if not fin(v):
             bad('norm-nan-inf', f"get_normalized()[{k!r}] = {v!r} (raw values {got})")
@@ -95,7 +99,8 @@ def check(tr, ref, tname, n_updates, where):
 
 def run_task(task):
     from ixai.utils.tracker import MultiValueTracker, WelfordTracker, ExponentialSmoothingTracker
-    base, tname, depth = task
+    base, tname, depth = task[:3]
+    family = task[3] if len(task) > 3 else 'abc'
     conv = TYPES[tname]
     dyn = base != 'welford'
     alpha = None if not dyn else F(base)
@@ -107,7 +112,7 @@ def run_task(task):
     def make():
         bt = WelfordTracker() if not dyn else ExponentialSmoothingTracker(alpha=a_impl)
         return MultiValueTracker(bt)
-    L = letters()
+    L = letters(family)
     n = [0]
     states = set()
     viol = []
@@ -126,7 +131,7 @@ def run_task(task):
                 h2 = hist + [d]
                 check(t2, r2, tname, len(h2), f"MultiValueTracker({'WelfordTracker' if not dyn else f'ES(alpha={alpha})'}) "
                                                f"with {tname} values after updates {h2}")
-            states.add((base, tname, tuple(sorted((k, tuple(v)) for k, v in r2.hist.items()))))
+            states.add((base, tname, family, tuple(sorted(((repr(k), tuple(v)) for k, v in r2.hist.items())))))
             rec(t2, r2, h2)
     try:
         rec(make(), MultiRef(dyn, alpha), [])
@@ -142,6 +147,8 @@ def plan(tier):
     for base in ('welford', '1/2', '1', '1/4'):
         for tname in TYPES:
             tasks.append((base, tname, depth if (tname in ('Fraction', 'np.float64') or tier != 'thorough') else 3))
+        tasks.append((base, 'Fraction', 3, 'mixed'))
+        tasks.append((base, 'float', 2, 'mixed'))
     return tasks
 
 
